@@ -65,6 +65,16 @@ def callH (j : Json) : R Json := do
 
 def fabs (x : Float) : Float := Float.abs x
 
+/-- one crossing of a Multiband_amplifier: per-amplifier outputs in amplifier order (null where an amplifier
+received no channel), or {"error"} when none did -/
+def multiH (j : Json) : R Json := do
+  let amps ← fList getAmp j "amps"
+  let opers ← fList getOper j "opers"
+  let cs ← fList getChan j "chans"
+  match multiCall (amps.zip opers) cs with
+  | none => return jObj [("error", jStr "ValueError")]
+  | some _ => return jObj [("outs", Json.arr ((amps.zip opers).map (fun ao => jOpt jOut (call ao.1 ao.2 cs))).toArray)]
+
 def estimateH (j : Json) : R Json := do
   let gmin ← fF j "gmin"
   let gmax ← fF j "gmax"
@@ -115,6 +125,6 @@ def clampH (j : Json) : R Json := do
 
 def handlers : List (String × Handler) :=
   [("c04.call", callH), ("c04.estimate", estimateH), ("c04.nf", nfH), ("c04.fromjson", fromJsonH),
-   ("c04.clamp", clampH)]
+   ("c04.clamp", clampH), ("c04.multi", multiH)]
 
 end Gnpy.Drv.C04
